@@ -100,6 +100,8 @@ type ConcState struct {
 	timersByCh map[*ChanV]*Event
 	raceMode  bool
 	snapIdx   map[*Object]int
+	incomplete bool
+	readCache  map[string]Value
 }
 
 type heapSnap struct {
@@ -234,34 +236,41 @@ func (ex *Exec) runParallel() {
 		c.newCands = map[string][]refCand{}
 		c.threads = c.threads[:nUser+1]
 		c.goParent = map[int][2]int{}
-		for t := 1; t < len(c.threads); t++ { // len grows when threads spawn goroutines
-			ex.exploreThread(t)
-		}
 		changed := false
-		for loc, ws := range c.newWrite {
-			if c.writers[loc] == nil {
-				c.writers[loc] = map[int]bool{}
-			}
-			for w := range ws {
-				if !c.writers[loc][w] {
-					c.writers[loc][w] = true
-					changed = true
+		merge := func() {
+			for loc, ws := range c.newWrite {
+				if c.writers[loc] == nil {
+					c.writers[loc] = map[int]bool{}
 				}
-			}
-		}
-		for loc, cs := range c.newCands {
-			for _, nc := range cs {
-				found := false
-				for _, oc := range c.cands[loc] {
-					if oc.Key == nc.Key {
-						found = true
+				for w := range ws {
+					if !c.writers[loc][w] {
+						c.writers[loc][w] = true
+						changed = true
 					}
 				}
-				if !found {
-					c.cands[loc] = append(c.cands[loc], nc)
-					changed = true
+			}
+			for loc, cs := range c.newCands {
+				for _, nc := range cs {
+					found := false
+					for _, oc := range c.cands[loc] {
+						if oc.Key == nc.Key {
+							found = true
+						}
+					}
+					if !found {
+						c.cands[loc] = append(c.cands[loc], nc)
+						changed = true
+					}
 				}
 			}
+		}
+		c.incomplete = false
+		for t := 1; t < len(c.threads); t++ { // len grows when threads spawn goroutines
+			ex.exploreThread(t)
+			merge()
+		}
+		if c.incomplete {
+			changed = true
 		}
 		if !changed {
 			break
@@ -292,6 +301,17 @@ func (ex *Exec) exploreThread(t int) {
 		prefix := pending[len(pending)-1]
 		pending = pending[:len(pending)-1]
 		if len(spec.Paths) > 400 {
+			if verboseLog {
+				for i, p := range spec.Paths {
+					if i%40 == 0 {
+						var kinds []string
+						for _, e := range p.Events {
+							kinds = append(kinds, e.Kind+":"+e.Loc+"@"+e.Pos)
+						}
+						logf("    sample path %v end=%s events=%v\n", p.Trace, p.End, kinds)
+					}
+				}
+			}
 			panic(unsupported("too many paths in thread " + spec.Name))
 		}
 		ex.restoreSnap(c.snap)
@@ -303,6 +323,7 @@ func (ex *Exec) exploreThread(t int) {
 		c.allocSeq = map[string]int{}
 		c.foreign = map[string]*Object{}
 		c.heldLocks = nil
+		c.readCache = map[string]Value{}
 		c.pubDone = map[*Object]bool{}
 		ex.forkCnt = map[ssa.Instruction]int{}
 		ex.classes = nil
@@ -414,29 +435,56 @@ func (ex *Exec) sharedLoad(p *Ptr, cur Value, atomic bool) Value {
 		// race analysis: every plain access to a shared location is recorded
 		ex.addEvent(&Event{Kind: "pr", Loc: loc, Plain: true})
 	}
+	if !needEvent && p.Obj.Foreign {
+		// content of an object allocated by another thread whose writes are not known yet in this
+		// pass of the fix point: abandon the path, another pass follows
+		c.incomplete = true
+		panic(pathEnd{"assumption infeasible (foreign object content unknown in this pass)"})
+	}
 	if !needEvent {
 		return cur
+	}
+	// a location re-read inside one critical section is stable (race-free code: C17): reuse the value
+	if len(c.heldLocks) > 0 && !atomic && c.mode == "thread" {
+		if v, ok := c.readCache[loc]; ok {
+			return v
+		}
 	}
 	ex.noteInit(p, loc)
 	if t, ok := cur.(*Term); ok {
 		rv := ex.ts.FreshVar(fmt.Sprintf("rd.t%d.%s", c.curThread, sanitize(loc)), t.Sort)
 		ex.addEvent(&Event{Kind: "r", Loc: loc, RV: rv, Atomic: atomic, Plain: !atomic})
+		if len(c.heldLocks) > 0 && !atomic {
+			c.readCache[loc] = rv
+		}
 		return rv
 	}
 	// reference-valued location: selector over the candidate values
 	cands := ex.refCandidates(loc, cur)
+	if len(cands) == 0 {
+		c.incomplete = true
+		panic(pathEnd{"assumption infeasible (no candidate value known for a reference read in this pass)"})
+	}
 	if len(cands) == 1 {
 		// still an event (ordering), but the value is known
 		sel := ex.ts.FreshVar(fmt.Sprintf("rd.t%d.%s", c.curThread, sanitize(loc)), SInt(32, false))
 		ex.addEvent(&Event{Kind: "r", Loc: loc, RV: sel, Atomic: atomic, Plain: !atomic, Aux: "ref"})
 		ex.sess.AssertPC(ex.ts.IntCmp("eq", sel, ex.ts.Int(SInt(32, false), uint64(ex.refID(cands[0])))))
-		return ex.materialize(cands[0])
+		v := ex.materialize(cands[0])
+		if len(c.heldLocks) > 0 && !atomic {
+			c.readCache[loc] = v
+		}
+		return v
 	}
 	sel := ex.ts.FreshVar(fmt.Sprintf("rd.t%d.%s", c.curThread, sanitize(loc)), SInt(32, false))
 	ex.addEvent(&Event{Kind: "r", Loc: loc, RV: sel, Atomic: atomic, Plain: !atomic, Aux: "ref"})
 	k := ex.ctl.Choose(len(cands), func(int) bool { return true })
 	ex.sess.AssertPC(ex.ts.IntCmp("eq", sel, ex.ts.Int(SInt(32, false), uint64(ex.refID(cands[k])))))
-	return ex.materialize(cands[k])
+	v := ex.materialize(cands[k])
+	if len(c.heldLocks) > 0 && !atomic {
+		c.readCache[loc] = v
+	}
+	return v
 }
 
 // noteInit records the post-setup value of a shared location (the value a read sees when no
@@ -529,7 +577,17 @@ func (ex *Exec) refKey(v Value) string {
 		}
 		return "{" + strings.Join(parts, ",") + "}"
 	case *CtxV:
-		return fmt.Sprintf("ctx:%p", x)
+		k := "ctx:" + x.Name
+		if x.HasKV {
+			k += "{" + ex.refKey(x.Key) + "=" + ex.refKey(x.Val) + "}"
+		}
+		if x.Cancel != nil {
+			k += "!" + x.Cancel.String()
+		}
+		if x.Parent != nil {
+			k += "<" + ex.refKey(x.Parent)
+		}
+		return k
 	case *OpaqueV:
 		return fmt.Sprintf("opaque:%d", x.ID)
 	}
@@ -549,10 +607,10 @@ func (ex *Exec) refID(rc refCand) int {
 func (ex *Exec) refCandidates(loc string, cur Value) []refCand {
 	c := ex.conc
 	init, ok := c.initVals[loc]
-	if !ok {
-		init = cur
+	var out []refCand
+	if ok {
+		out = append(out, refCand{Key: ex.refKey(init), V: init})
 	}
-	out := []refCand{{Key: ex.refKey(init), V: init}}
 	for _, rc := range c.cands[loc] {
 		dup := false
 		for _, o := range out {
@@ -680,6 +738,13 @@ func (ex *Exec) sharedStore(p *Ptr, v Value, atomic bool) {
 		c.newWrite[loc] = map[int]bool{}
 	}
 	c.newWrite[loc][c.curThread] = true
+	if c.readCache != nil {
+		if len(c.heldLocks) > 0 && !atomic {
+			c.readCache[loc] = v
+		} else {
+			delete(c.readCache, loc)
+		}
+	}
 	if t, ok := v.(*Term); ok {
 		ex.addEvent(&Event{Kind: "w", Loc: loc, WV: t, Atomic: atomic, Plain: !atomic})
 		return
@@ -767,6 +832,7 @@ func (ex *Exec) concLock(p *Ptr, op string) {
 		return
 	}
 	loc := "lock:" + ex.locKey(p)
+	c.readCache = map[string]Value{}
 	switch op {
 	case "lock", "wlock":
 		ex.addEvent(&Event{Kind: "lock", Loc: loc})
@@ -885,6 +951,9 @@ func (ex *Exec) concCond(p *Ptr, op string) {
 	if !c.active() {
 		return
 	}
+	if p.Obj == nil {
+		panic(unsupported(fmt.Sprintf("sync.Cond op %s on nil cond pointer in thread %s at %s", op, c.threads[c.curThread].Name, ex.stack())))
+	}
 	loc := "cond:" + ex.locKey(p)
 	switch op {
 	case "broadcast":
@@ -898,6 +967,7 @@ func (ex *Exec) concCond(p *Ptr, op string) {
 		lp := ex.condL(p)
 		lloc := "lock:" + ex.locKey(lp)
 		// ticket is taken, then L is released (order of sync.Cond.Wait)
+		c.readCache = map[string]Value{}
 		enq := ex.addEvent(&Event{Kind: "enq", Loc: loc})
 		ex.addEvent(&Event{Kind: "unlock", Loc: lloc})
 		c.heldLocks = removeLast(c.heldLocks, lloc)
@@ -989,6 +1059,19 @@ func (ex *Exec) concRecv(ch *ChanV) (Value, *Term) {
 	panic(unsupported("bare channel receive in concurrent mode (use select)"))
 }
 
+// bumpSite bounds the number of times one blocking site is passed on a path (retry loops).
+func (ex *Exec) bumpSite(site ssa.Instruction) {
+	ex.forkCnt[site]++
+	if ex.forkCnt[site] > ex.h.Unwind {
+		if ex.h.Opts["unwindcut"] == "1" {
+			ex.sess.res.UnwindCuts++
+			panic(pathEnd{"unwinding bound reached (cut)"})
+		}
+		ex.sess.UnwindFailure(ex.curPos())
+		panic(pathEnd{"unwinding bound reached"})
+	}
+}
+
 // concSelect models select in concurrent mode.
 func (ex *Exec) concSelect(fr *Frame, x *ssa.Select) Value {
 	c := ex.conc
@@ -1002,6 +1085,7 @@ func (ex *Exec) concSelect(fr *Frame, x *ssa.Select) Value {
 	if !c.active() || c.mode == "final" {
 		panic(unsupported("select in the setup / final phase of a concurrent harness"))
 	}
+	ex.bumpSite(x)
 	mkRes := func(idx int, recvOK bool, val Value) Value {
 		res := TupleV{ts.IntS(i64, int64(idx)), ts.Bool(recvOK)}
 		for i, st := range x.States {
@@ -1212,6 +1296,9 @@ func (ex *Exec) checkCombo(combo []*ThreadPath, final *ThreadPath, finalPC []*Te
 	res.Events += len(events)
 	for _, e := range events {
 		fmt.Fprintf(&sb, "(declare-const %s Int)\n", ex.clk(e))
+		if e.Kind == "send" && e.Aux == "ok" {
+			fmt.Fprintf(&sb, "(declare-const sndto%d Int)\n", e.ID)
+		}
 	}
 	assertf := func(format string, a ...interface{}) {
 		sb.WriteString("(assert " + fmt.Sprintf(format, a...) + ")\n")
@@ -1443,7 +1530,6 @@ func (ex *Exec) checkCombo(combo []*ThreadPath, final *ThreadPath, finalPC []*Te
 			}
 		}
 		if s.Aux == "ok" {
-			fmt.Fprintf(&sb, "(declare-const sndto%d Int)\n", s.ID)
 			var alts []string
 			for _, p := range parks {
 				if p.Peer != nil && p.Peer.Aux == "recv" && p.Peer.Loc == s.Loc {
@@ -1693,6 +1779,31 @@ func (ex *Exec) concCandidate(solver *Solver, r *Renderer, a recAssert, events [
 			cand.Classes[cp.Name] = strings.TrimSpace(v[n]) == "true"
 		}
 	}
+	// schedule classes decided by the combination of control paths (known findings are keyed by them)
+	bcastBeforeEnq, sendFailed, anySend, parkedForever, waitForever := false, false, false, false, false
+	for _, e := range events {
+		switch {
+		case e.Kind == "enq" && e.Peer == nil:
+			waitForever = true
+			for _, b := range events {
+				if b.Kind == "bcast" && b.Loc == e.Loc {
+					bcastBeforeEnq = true
+				}
+			}
+		case e.Kind == "send":
+			anySend = true
+			if e.Aux == "fail" {
+				sendFailed = true
+			}
+		case e.Kind == "park" && e.Peer == nil:
+			parkedForever = true
+		}
+	}
+	cand.Classes["sched:broadcast_before_waiter_enqueued"] = bcastBeforeEnq
+	cand.Classes["sched:cond_waiter_never_woken"] = waitForever
+	cand.Classes["sched:handoff_send_failed"] = sendFailed
+	cand.Classes["sched:no_handoff_attempted"] = parkedForever && !anySend
+	cand.Classes["sched:select_parked_forever"] = parkedForever
 	for i, p := range paths {
 		if p != nil && i < len(c.threads)-1 {
 			cand.Choices["path:"+c.threads[i+1].Name] = 0
